@@ -78,11 +78,9 @@ type noOpCompressor struct {
 }
 
 func (c *noOpCompressor) Reset(writer io.Writer) {
-	wc, ok := writer.(io.WriteCloser)
-	if !ok {
-		wc = &noOpCloser{writer}
-	}
-	c.WriteCloser = wc
+	// Like every other compressor, closing this one must not close the
+	// destination: callers go on writing to it (e.g. the next stream item).
+	c.WriteCloser = &noOpCloser{writer}
 }
 
 type noOpDecompressor struct {
